@@ -45,7 +45,7 @@ ASSUMPTIONS = {
 TIERS = {
     "C04": {
         "quick": {"runs": 8000, "chunk": 100, "per_run_timeout": 120, "wall_cap": 300},
-        "thorough": {"runs": 200000, "chunk": 200, "per_run_timeout": 300, "wall_cap": 3000},
+        "thorough": {"runs": 200000, "chunk": 200, "per_run_timeout": 300, "wall_cap": 2400},
     }
 }
 
